@@ -322,7 +322,12 @@ func runHistory(pl Payload) (h *histRun) {
 		h.violate("lock:held:after-init", "Cores.Lock cannot be acquired after NewVM returned", nil)
 		return h
 	}
+	nInit := len(vm.Cores.Cores)
 	vm.Cores.Lock.Unlock()
+	if nInit != 0 {
+		h.violate("residue:cores:@init", fmt.Sprintf("after NewVM returned (it runs @init through SpawnSync), %d cores are still in the core list (the next Wait would poll a finished core forever)", nInit), nil)
+		return h
+	}
 
 	st := newState(v.Init)
 	failedAt := -1 // index of the first failed call (model or observed)
